@@ -112,6 +112,9 @@ func family(tier string) []*graph {
 		v4 := *b
 		v4.WithOutput = false
 		out = append(out, &v4)
+		v5 := *b
+		v5.Reversed = true
+		out = append(out, &v5)
 	}
 	return out
 }
@@ -195,7 +198,7 @@ func (e *enum) Run(i int64, r *vf.Rec) {
 func Spec() *vf.Check {
 	return &vf.Check{
 		ID: "C07", Level: "model_checking", BlockSize: 1, HangSeconds: 7200, Pre: tlaPre,
-		Rule: "(i) every model graph of a bounded family (generations 1..3; 0..2 nodes per (type, generation) over the palette Input/Sum/FixedPartition/RunoffCoefficient/Muskingum, node cap 3 (thorough 4); every multiset of at most 2 (3) links between an output and an input of a later generation, so fan-in, fan-out, repeated links, types without nodes and types without stored inputs occur; plus T=1, stored inputs for all types, the four output-selection flags and no-output-file variants) is run through the real run_simulation under the controlled scheduler's default schedule and every dataset of the output file is compared bit-for-bit with a sequential reference interpreter; " +
+		Rule: "(i) every model graph of a bounded family (generations 1..3; 0..2 nodes per (type, generation) over the palette Input/Sum/FixedPartition/RunoffCoefficient/Muskingum, node cap 3 (thorough 4); every multiset of at most 2 (3) links between an output and an input of a later generation, so fan-in, fan-out, repeated links, types without nodes and types without stored inputs occur; plus T=1, stored inputs for all types, the four output-selection flags, no-output-file and reversed /META/models order variants) is run through the real run_simulation under the controlled scheduler's default schedule and every dataset of the output file is compared bit-for-bit with a sequential reference interpreter; " +
 			"(ii) for 5 (6) graph shapes every schedule of main / model goroutines / writer goroutines that departs at most 2 (thorough 3) times from the default schedule (run the current thread while it can continue, else the lowest runnable thread; a departure is any other choice, preemptive or not) (scheduling points: spawn, channel operations, io lock operations, every fake-HDF5 call, Sleep as a yield) is executed with monitors M1 (no purge before write and links), M2 (no use after purge), M3 (written exactly once), M4 (all written before return), deadlock, data races (-race) and the final file compared with the reference; (iii) a TLA+ model of the writer hand-off checked by TLC with trace conformance in both directions (see the tla part).",
 		Assumptions: []string{"HDF5 is the in-memory stand-in fakehdf5", "link tables are sorted by source generation (as produced by the graph builder)", "the retry loops (token put back, Sleep) are explored up to the step horizon; schedules cut by the horizon are counted and make the exploration non-exhaustive for that shape"},
 		Build:       func(tier string) vf.Enumeration { return build(tier) },
